@@ -177,6 +177,51 @@ func badLiteralsFor(kind string) []badLiteral {
 	}
 }
 
+// dynamicBadLiteral draws an integer literal beyond the range of the item type at a random distance
+// (so that a value that merely wraps around modulo 2^8, 2^16, ... lands on an innocent-looking one),
+// spelled in a random base.
+func dynamicBadLiteral(t *rapid.T, sp *rapidSpeller, kind string) (badLiteral, bool) {
+	var hi uint64
+	switch {
+	case kind == model.A:
+		hi = 127
+	case kind == model.B:
+		hi = 255
+	case model.IsUnsigned(kind) && kind != model.U8:
+		hi = uintMaxOf(kind)
+	case model.IsSigned(kind) && kind != model.I8:
+		_, h := intRangeOf(kind)
+		hi = uint64(h)
+	default:
+		return badLiteral{}, false
+	}
+	var beyond uint64
+	switch rapid.IntRange(0, 3).Draw(t, "beyondClass") {
+	case 0:
+		beyond = hi + 1 + uint64(rapid.IntRange(0, 300).Draw(t, "smallExcess"))
+	case 1:
+		// a multiple of the wrap-around modulus plus a small in-range value
+		beyond = (hi+1)*uint64(rapid.IntRange(1, 1<<16).Draw(t, "wraps")) + uint64(rapid.IntRange(0, int(hi%1000)).Draw(t, "residue"))
+		if kind == model.A {
+			beyond = 256*uint64(rapid.IntRange(1, 1<<20).Draw(t, "wraps256")) + uint64(rapid.IntRange(0, 127).Draw(t, "lowByte"))
+		}
+	case 2:
+		beyond = 1<<32 + uint64(rapid.IntRange(0, 200).Draw(t, "above32"))
+		if beyond <= hi {
+			beyond = hi + 1
+		}
+	default:
+		beyond = hi + 1 + rapid.Uint64Range(0, 1<<40).Draw(t, "excess")
+	}
+	text := sp.spellUnsigned(beyond)
+	why := fmt.Sprintf("%d is beyond the range of %s", beyond, kind)
+	if model.IsSigned(kind) && rapid.Bool().Draw(t, "negativeSide") {
+		text = "-" + sp.spellUnsigned(beyond+1)
+		why = fmt.Sprintf("-%d is beyond the range of %s", beyond+1, kind)
+	}
+	return badLiteral{Text: text, Why: why}, true
+}
+
 // genSMLMessages draws 1..n messages with their tokens.
 func genSMLMessages(t *rapid.T, n int, sp *rapidSpeller, opts treeOpts) ([]smlMsg, [][]model.Tok) {
 	var msgs []smlMsg
@@ -230,6 +275,9 @@ func genC05(t *rapid.T) c05Case {
 			kind := strings.ToUpper(toks[mi][ti].Text)
 			cands := badLiteralsFor(kind)
 			bad := cands[rapid.IntRange(0, len(cands)-1).Draw(t, "badLit")]
+			if dyn, ok := dynamicBadLiteral(t, sp, kind); ok && rapid.Bool().Draw(t, "dynamicBad") {
+				bad = dyn
+			}
 			at := ti + 1
 			if at < len(toks[mi]) && toks[mi][at].Kind == "size" {
 				at++
